@@ -19,7 +19,7 @@ type fuzzCase struct {
 	Idx   int
 	Input []byte
 	Desc  string
-	Bomb  bool
+	Bomb  bool // nesting possibly deeper than 1000 levels / adversarial length: outside C03's depth bound
 }
 
 // fuzzSpace enumerates the shared input space; f is called for this shard's cases only.
@@ -117,6 +117,64 @@ func fuzzSpace(w *W, f func(c fuzzCase)) {
 		f(fuzzCase{Idx: idx, Input: []byte(joinTokens(ts)), Desc: "soup"})
 	}
 
+	// (5b) set-operation chains, with and without a leading WITH, every operand kind, truncated at every point
+	ops := []string{"UNION ALL", "UNION DISTINCT", "UNION", "INTERSECT", "EXCEPT", "INTERSECT DISTINCT", "EXCEPT ALL"}
+	operands := []string{"SELECT 2", "(SELECT 3)", "SELECT a FROM t", "(SELECT 4 UNION ALL SELECT 5)", "3", "(3)", "", "SELECT", "x", "(", "WITH 9 AS y SELECT y"}
+	heads := []string{"SELECT 1", "WITH 1 AS x SELECT x", "WITH c AS (SELECT 1) SELECT * FROM c", "(SELECT 1)", "SELECT x IN (SELECT 1", "INSERT INTO t SELECT 1", "CREATE VIEW v AS SELECT 1", "EXPLAIN SELECT 1", "SELECT * FROM (SELECT 1"}
+	nChain := w.pickN(8000, 150000)
+	for k := 0; k < nChain; k++ {
+		idx, mine := w.Case()
+		if !mine {
+			continue
+		}
+		r := NewRng(w.Seed, uint64(idx), 6)
+		parts := []string{pick(r, heads)}
+		n := 1 + r.Intn(4)
+		for i := 0; i < n; i++ {
+			parts = append(parts, pick(r, ops), pick(r, operands))
+		}
+		s := strings.Join(parts, " ")
+		if r.Chance(1, 3) {
+			if ts, ok := spanTexts(s); ok && len(ts) > 1 {
+				s = joinTokens(ts[:1+r.Intn(len(ts)-1)])
+			}
+		}
+		f(fuzzCase{Idx: idx, Input: []byte(s), Desc: "setops"})
+	}
+
+	// (5c) every token-prefix of grammar statements (truncated SQL)
+	nPre := w.pickN(600, 12000)
+	for k := 0; k < nPre; k++ {
+		r := NewRng(w.Seed, uint64(k), 7)
+		g := &Gen{r: r}
+		st := g.statement(3)
+		ts, ok := spanTexts(st)
+		if !ok {
+			continue
+		}
+		for i := 1; i < len(ts); i++ {
+			run(joinTokens(ts[:i]), "prefix", false)
+		}
+	}
+
+	// (5d) well-formed nesting up to ClickHouse's depth limit (inside C03's bound of 1000 levels)
+	type nest struct{ open, mid, close string }
+	nests := []nest{{"(", "1", ")"}, {"f(", "x", ")"}, {"NOT ", "a", ""}, {"- ", "a", ""}, {"-", "1", ""}, {"(SELECT ", "1", ")"}, {"[", "1", "]"}, {"tuple(", "1", ")"},
+		{"CAST(", "1", " AS UInt8)"}, {"a IN (", "1", ")"}, {"if(1, 2, ", "3", ")"}, {"x -> ", "x", ""}, {"(SELECT * FROM (", "SELECT 1", "))"}, {"CASE WHEN 1 THEN ", "2", " END"},
+		{"arrayMap(x -> ", "x", ", [1])"}, {"a AND (", "b", ")"}, {"1 + (", "2", ")"}, {"EXISTS (SELECT ", "1", ")"}}
+	for _, nn := range nests {
+		for _, depth := range []int{60, 240, 520, 990} {
+			if !w.Thorough() && depth == 240 {
+				continue
+			}
+			d := depth
+			if strings.Contains(nn.open, "SELECT") && d > 330 { // one level of SQL nesting = several parser levels
+				d = 330
+			}
+			run("SELECT "+strings.Repeat(nn.open, d)+nn.mid+strings.Repeat(nn.close, d), fmt.Sprintf("deep:%q*%d", nn.open, d), false)
+		}
+	}
+
 	// (6) nesting bombs and long adversarial inputs (up to 1 MiB)
 	bombUnits := []string{"(", "a(", "f(x,", "(SELECT ", "CASE WHEN ", "x IN (", "[a,", "NOT ", "-", "- ", "a.", "a[", "(SELECT * FROM (", "SELECT 1 UNION ALL ", "1 + ", "a AND ", "{", "'", "/*", "$a$", "tuple(", "x -> ", "CAST(", "a::", "INTERVAL ", "1,", "a b ", "WITH a AS (", "SELECT 1;", ";", "EXPLAIN "}
 	sizes := []int{1 << 12}
@@ -149,4 +207,22 @@ var regressionInputs = []string{
 	"RENAME",
 	"EXCHANGE",
 	"SELECT position(x IN (SELECT 1))",
+	"WITH 1 AS x SELECT x EXCEPT SELECT 2 EXCEPT",
+	"WITH 1 AS x SELECT x EXCEPT SELECT 2 INTERSECT (3)",
+	"SELECT 1 CAST || 1e3 ALTER ALTER PARALLEL WITH ASOF CAST",
+	"SELECT INTERVAL '1 SQL_TSI_'",
+	"SELECT * FROM kql('T | filter a == \\'')",
+	"SELECT CAST ( 1 AS Enum8 ( 'a' = 1 IN , 'b' = 2 ) )",
+	"SELECT CAST(id AS Decimal(10,[ 2)) * v",
+	"SELECT ٣",
+	"SELECT x'41€'",
+	"SELECT 'abc\\x中文'",
+	"SELECT arrayMap((x, +) -> x, [1])",
+	"SELECT (a, cast) -> a",
+	"SELECT -1::Int8 EXCEPT SELECT 2",
+	"KILL QUERY WHERE query_id = 'x' SYNCHRONOUS",
+	"KILL MUTATION mutation_id",
+	"EXPLAIN REPLACE",
+	"CREATE TABLE t (x Tuple(a))",
+	"CREATE TABLE t (x Nested(k String, v))",
 }
